@@ -391,8 +391,9 @@ result_t DateTimeDataType::readSymbols(size_t offset, size_t length, const Symbo
         break;
 
       case 1:  // time only
-        if (!hasFlag(REQ) && symbol == m_replacement) {
-          if (length == 1) {  // truncated time
+        if (!hasFlag(REQ) && symbol == m_replacement
+        && (!hasFlag(SPE) || (i > 0 && last == m_replacement))) {  // minutes since midnight are only null if both bytes are
+          if (length == 1 || hasFlag(SPE)) {  // truncated time or minutes since midnight
             *output << NULL_VALUE << ":" << NULL_VALUE;
             break;
           }
